@@ -5,6 +5,7 @@ package c07
 
 import (
 	"os"
+	"strings"
 	"testing"
 
 	"pgregory.net/rapid"
@@ -57,6 +58,7 @@ func genCase(t *rapid.T) aggh.XCase {
 	to := [][2]int{{10*3600 + 30*60 + 20, 3*3600 + 30*60 + 40}, {2*3600 + 30*60 + 20, 5*3600 + 30*60 + 40}}[rapid.IntRange(0, 1).Draw(t, "to")]
 	c := aggh.XCase{ActiveSec: to[0], InactiveSec: to[1], LayoutS: rapid.IntRange(0, 3).Draw(t, "layout_s"), LayoutD: rapid.IntRange(0, 3).Draw(t, "layout_d")}
 	c.NoAggregation = rapid.IntRange(0, 5).Draw(t, "no_aggregation") == 0
+	c.Verbosity = rapid.SampledFrom([]int{0, 0, 0, 2, 10}).Draw(t, "verbosity")
 	if mr := rapid.SampledFrom([]int{-1, -1, 0, 1, 2, 3}).Draw(t, "max_retries"); mr >= 0 {
 		c.MaxRetries = &mr
 	}
@@ -133,6 +135,12 @@ func TestC07(t *testing.T) {
 	ev.Rapid(t, rec, "histories", rec.Scale(6000, 3000000), genCase, func(c aggh.XCase) *ev.Failure {
 		st := &aggh.XStats{}
 		f := aggh.RunX(c, st)
+		if f != nil && strings.Contains(f.Msg, "HUNG") {
+			// the stuck scan cannot be killed and holds its process's lock: report and leave at once
+			rec.Violation("histories", c, f.Msg)
+			rec.Write()
+			os.Exit(1)
+		}
 		var cl []string
 		for k, b := range map[string]bool{"correlated_flow_exported": st.Correlated, "retry_round_then_peer": st.RetryThenPeer, "uncorrelated_dropped": st.DroppedUncorrelated, "both_arrival_orders": st.BothOrders, "failing_callback": st.FailingCallback, "nodes_use_different_element_order": c.LayoutS != c.LayoutD, "correlating_record_refused": st.IncompleteCorrelating, "max_retries_setting_changed": c.MaxRetries != nil && *c.MaxRetries != 2, "process_without_aggregate_elements": c.NoAggregation, "one_node_reports_the_flow_denied": c.Flows[0].Denied() || c.Flows[1].Denied(), "exporters_with_different_templates": len(c.Flows[0].OmitS)+len(c.Flows[0].OmitD)+len(c.Flows[1].OmitS)+len(c.Flows[1].OmitD) > 0} {
 			if b {
